@@ -159,11 +159,16 @@ func vfSignedStream(payload []byte, sizes []int, ct checksumType) []byte {
 		s = append(s, tsig...)
 		s = append(s, "\r\n"...)
 		// the trailer lines are parsed together with the final chunk header
-		last := &vfNonFirstHeaders[len(vfNonFirstHeaders)-1]
-		if len(s)-last.start > vfMaxHeader {
-			vfMaxHeader = len(s) - last.start
+		// (an empty payload has no other header than the first and final one)
+		if len(vfNonFirstHeaders) > 0 {
+			last := &vfNonFirstHeaders[len(vfNonFirstHeaders)-1]
+			if len(s)-last.start > vfMaxHeader {
+				vfMaxHeader = len(s) - last.start
+			}
+			last.end = len(s)
+		} else if len(s) > vfMaxHeader {
+			vfMaxHeader = len(s)
 		}
-		last.end = len(s)
 	}
 	s = append(s, "\r\n"...)
 	return s
